@@ -1,3 +1,6 @@
+\* C04 thorough tier: everything of the quick tier with and without case-insensitivity on all trees, plus
+\* three root lines (PA x PB x PC, three orders), two root lines x one nested line, one root
+\* line x two nested lines.  About 85 000 repositories.
 SPECIFICATION Spec
 CONSTANTS
   Seeds <- ThoroughSeeds
